@@ -165,6 +165,27 @@ def _replay(job):
                         "%s: filtered %s vs selected-only %s" % (
                             {k: case[k] for k in ("inst", "mask", "poison")},
                             str(ra)[:120], str(rb)[:120])))
+    # --- a density estimate is a function of the events and the position:
+    # what is reported for a position does not depend on how many other
+    # positions are asked for in the same call
+    px, py = np.array([20., 40., 61.]), np.array([2., 3.5, 5.])
+    for kt in KDES:
+        full = call(lambda: A.get_kde_scatter(
+            xax="area_um", yax="deform", kde_type=kt, positions=(px, py)))
+        for k in (1, 2):
+            part = call(lambda: A.get_kde_scatter(
+                xax="area_um", yax="deform", kde_type=kt,
+                positions=(px[:k], py[:k])))
+            n += 1
+            if full[0] != "ok":
+                continue
+            if part[0] != "ok" or not np.allclose(
+                    full[1][0][:k], part[1][0], rtol=1e-9, atol=0,
+                    equal_nan=True):
+                out.append(("density estimate %s at a position depends on "
+                            "the number of positions asked for (%d of 3)"
+                            % (kt, k), "%s vs %s" % (str(full[1])[:80],
+                                                     str(part[1])[:80])))
     # --- bin widths / default accuracies are functions of the finite
     # selected values: invalid values among them change nothing
     from dclab import kde_methods as km
